@@ -338,7 +338,7 @@ def run(H):
     H.assumptions += ['exact real arithmetic', 'P, Q, R symmetric positive definite (Cholesky-parametrised)',
                       'pinv of an invertible matrix is its inverse (LAPACK contract)', 'PF convergence at the Monte-Carlo rate is statistical: outside']
     H.bounds += ['state dim n<=2, input dim 1, observation dim p=1 (quick) / p<=2 (thorough); one filter step (posterior from an arbitrary prior: '
-                 'an inductive step over filter runs)', 'UKF k in {default 3-n, 1, 0.5}']
+                 'an inductive step over filter runs)', 'UKF k in {default 3-n, 1, 0.5}', 'UKF on nonlinear systems (positive semidefiniteness for n >= 4 with explicit k, where 3-n < 0) is NOT covered: the symbolic Cholesky factor of a 4x4 predicted covariance is beyond the solver (tried; every obligation unknown)']
     cases = [('EKF', 1, 1, 1, None), ('EKF', 2, 1, 1, None), ('EKF', 2, 1, 2, None), ('UKF', 1, 1, 1, None), ('UKF', 1, 1, 1, 1), ('UKF', 2, 1, 1, None)]
     if not H.quick:
         cases += [('UKF', 2, 1, 1, 0.5), ('UKF', 2, 1, 2, None), ('UKF', 2, 1, 1, 2)]
